@@ -590,3 +590,41 @@ func TestVerifGuidPublishOrder(t *testing.T) {
 	}
 	fmt.Printf("ORDER-OK msgs=%d distinct=%d publishers=2 entrances=%v\n", total, len(all), hist)
 }
+
+// TestVerifGuidRecreate — replay of the open finding `topic-recreate-same-pseudo-ms` (audit B25, "restart / re-create"):
+// a deleted and re-created topic gets a NEW id factory that remembers nothing, so when delete + re-create + publish
+// fit into the pseudo-millisecond of the old topic's last id, the new topic hands out that very id again
+// (Lean: Props.C12Clock.restart_unique_full_false; what IS proved: restart_unique_partial). No clock step is needed.
+// Only public daemon API: GetTopic, GenerateID, DeleteExistingTopic. Prints how often it happened.
+func TestVerifGuidRecreate(t *testing.T) {
+	opts := vfE1GOpts(t)
+	_, _, nsqd := mustStartNSQD(opts)
+	defer nsqd.Exit()
+	cycles := vfEnvInt("VERIF_N", 300)
+	same, lower := 0, 0
+	example := ""
+	for i := 0; i < cycles; i++ {
+		name := "vf_recreate"
+		if i%2 == 1 {
+			name = "vf_recreate#ephemeral"
+		}
+		a := nsqd.GetTopic(name).GenerateID()
+		if err := nsqd.DeleteExistingTopic(name); err != nil {
+			t.Fatal(err)
+		}
+		b := nsqd.GetTopic(name).GenerateID()
+		if err := nsqd.DeleteExistingTopic(name); err != nil {
+			t.Fatal(err)
+		}
+		switch {
+		case a == b:
+			same++
+			if example == "" {
+				example = fmt.Sprintf("topic %s: id %s handed out, topic deleted and re-created, id %s handed out again (cycle %d)", name, a[:], b[:], i)
+			}
+		case string(b[:]) < string(a[:]):
+			lower++
+		}
+	}
+	fmt.Printf("RECREATE cycles=%d same_id=%d lower_id=%d node=%d %s\n", cycles, same, lower, opts.ID, example)
+}
